@@ -99,8 +99,13 @@ func (r *Executor) syncStatusBeforeExecuting(release *v1beta1.BatchRelease, newS
 
 	case isWorkloadRevisionChanged(workloadEvent, release):
 		// handle the case of continuous release
+		// a newer revision supersedes the one this BatchRelease was created for: stop, and keep stopping on every
+		// following round (the observed update revision is NOT advanced), until the owner of this BatchRelease
+		// (the Rollout controller: doProgressingReset / rollback) deletes or re-creates it. Recording the new
+		// revision here made the next round continue the OLD plan for the NEW revision: the partition the admission
+		// webhook had just set to 100% was lowered to the current batch's value before the Rollout controller
+		// had taken the new revision up.
 		message = "workload revision was changed, then abort"
-		newStatus.UpdateRevision = workloadInfo.Status.UpdateRevision
 		needStopThisRound = true
 
 	case isWorkloadUnstable(workloadEvent, release):
